@@ -24,7 +24,8 @@ RULE = ('Generated list fields (whitespace- or comma-separated; values with uniq
         'in the middle of or after the edits, comment lines inside a multi-line comma item, '
         'optionally with a second list view open on another field, through a '
         'fresh or one shared dict-view object, optionally after an abandoned edit session (exception inside the with block, '
-        'never closed, close that fails).  '
+        'never closed, close that fails); 35% of the cases also hold refused by-value edits (text that is not / no longer a value) followed by '
+        'reference edits and by-value edits of the same entry.  '
         'Non-trivial: multi-line layout or comment inside or irregular separators, and >= 1 edit.')
 ASSUMPTIONS = ['values never contain the separator (nor whitespace, for the whitespace list); removing the only value (documented to raise), '
                'sort and the Uploaders interpretation are outside the statement',
